@@ -228,9 +228,16 @@ def locate_loops(unit, gb, workdir):
                 text = ""
             if anchor in text:
                 cands.append((lp, ln))
-        if len(cands) != 1:
-            raise Tooling("loop anchor %r in %s resolves to %d loops" % (anchor, fn, len(cands)))
-        lp, ln = cands[0]
+        cands.sort(key=lambda c: c[1])
+        if "anchor_index" in ent:
+            want = ent.get("anchor_count")
+            if ent["anchor_index"] >= len(cands) or (want is not None and want != len(cands)):
+                raise Tooling("loop anchor %r in %s: index %d of %d loops" % (anchor, fn, ent["anchor_index"], len(cands)))
+            lp, ln = cands[ent["anchor_index"]]
+        else:
+            if len(cands) != 1:
+                raise Tooling("loop anchor %r in %s resolves to %d loops" % (anchor, fn, len(cands)))
+            lp, ln = cands[0]
         ordinal = lp["name"].rsplit(".", 1)[1]
         smap = []
         for base in ent.get("symbols", []):
@@ -354,6 +361,9 @@ def cbmc_cmd(unit, gb, trace=False, props=None):
         cmd += ["--no-pointer-check"]
     cmd += ["--unwind", str(unit["unwind"]), "--unwinding-assertions"]
     us = list(unit["unwindset"])
+    if unit["loops"] and not any("write_set_check_assigns_clause_inclusion" in x for x in us):
+        # loops of the contracts library itself (bounded by the size of the assigns clauses)
+        us.append("__CPROVER_contracts_write_set_check_assigns_clause_inclusion.0:20")
     if us:
         cmd += ["--unwindset", ",".join(us)]
     if unit["object_bits"]:
